@@ -74,6 +74,10 @@ USES = [
     ("weak_zero_tuple", ":~ {SH}. [L@1,D*0]"),
     ("sum_arith_tuple", "a(X) :- X = #sum {{ L,D/3 : {SH} }}."),
     ("sum_fun_tuple", "a(X) :- X = #sum {{ L,f(D,1) : {SH} }}."),
+    ("weak_prio_is_weight", ":~ {SH}. [L@L,D]"),
+    ("min_prio_is_weight", "#minimize {{ L@L,D : {SH} }}."),
+    ("weak_prio_group", ":~ {SH}. [L@D,D]"),
+    ("weak_prio_expr", ":~ {SH}. [L@L+1,D]"),
     ("weak_notuple", ":~ {SH}. [L@1]"),
     ("weak_extra", ":~ {SH}, day(D). [L@2,D]"),
     ("weak_anon", ":~ {SHA}. [L@1]"),
